@@ -565,6 +565,8 @@ fn destructure_top_level_ands(lvalue: EvaluatedLvalue) -> Vec<EvaluatedLvalue> {
 }
 
 pub fn evaluate(env: &Rc<RefCell<Env>>, expr: &LocExpr) -> NRes<Obj> {
+    #[cfg(betaveros_noulith_verif)]
+    let _verif_guard = crate::verif_hooks::enter()?;
     match &expr.expr {
         Expr::Null => Ok(Obj::Null),
         Expr::IntLit64(n) => Ok(Obj::from(NInt::Small(*n))),
@@ -2895,6 +2897,8 @@ pub fn modify_every(
 
 impl Func {
     pub fn run(&self, env: &REnv, mut args: Vec<Obj>) -> NRes<Obj> {
+        #[cfg(betaveros_noulith_verif)]
+        crate::verif_hooks::tick()?;
         match self {
             Func::Builtin(b) => b.run(env, args),
             Func::Closure(c) => c.run(args),
@@ -3183,6 +3187,8 @@ impl Func {
         }
     }
     pub fn run1(&self, env: &REnv, arg: Obj) -> NRes<Obj> {
+        #[cfg(betaveros_noulith_verif)]
+        crate::verif_hooks::tick()?;
         match self {
             Func::Builtin(b) => b.run1(env, arg),
             Func::PartialApp1(f, x) => f.run2(env, (**x).clone(), arg),
@@ -3191,6 +3197,8 @@ impl Func {
         }
     }
     pub fn run2(&self, env: &REnv, arg1: Obj, arg2: Obj) -> NRes<Obj> {
+        #[cfg(betaveros_noulith_verif)]
+        crate::verif_hooks::tick()?;
         match self {
             Func::Builtin(b) => b.run2(env, arg1, arg2),
             _ => self.run(env, vec![arg1, arg2]),
